@@ -295,6 +295,11 @@ class Gss(Harness):
         j = obs['json']
         yield 'json-uses-wildcard-row', j.get('fail', []) == exp_f and j.get('warn', []) == exp_w
         yield 'name-reported-as-sent', obs['name'] == self.base + tok and all(bool(h == self.base + tok) for h, l, t in obs['parsed'])
+        lk = obs['lookup']
+        if isinstance(lk, Exc):
+            yield 'lookup-no-exception', False
+        else:
+            yield 'lookup-uses-wildcard-row', [t for h, l, t in lk if l == 'fail'] == exp_f and [t for h, l, t in lk if l == 'warn'] == exp_w and len(lk) > 0
 
     def classify(self, inp, obs, label):
         if label == 'json-uses-wildcard-row' and obs['json'] == {'fail': ['using unknown algorithm']}:
